@@ -248,6 +248,14 @@ def judge(b, case, sq, rng, rhos=None):
             want = rename_result(ref, rho)
             m = frames_match(want, got, ordered_by=[rho.get(c, c) for c in fo[0]] if fo else None)
             if m:
+                from vf.checks.c19 import tied_limit
+
+                eng = "pandas" if be in ("pandas", "sqlite") else "polars"
+                if tied_limit(case, frames, eng):
+                    # order_rows(limit=k) cutting through rows that tie on the order keys may keep any of them (C18);
+                    # Polars' top-k picks differently from run to run, with or without a renaming
+                    b.count("limit_with_ties_not_judged", be)
+                    continue
                 b.violation("result-depends-on-names", f"{be}: renaming { {k: v for k, v in rho.items() if v in hostile} or 'to plain fresh names'} "
                             f"changes the result beyond the renaming: {m}\npipeline: {diff.describe(case)[-600:]}",
                             case=dict(cj, rho=rho, hostile=hostile, backend=be), finding_key=finding_for(be, rho, hostile, recipe))
